@@ -156,6 +156,9 @@ NOTES.update({
  "C04-7": ("missed at first", "uniform scalings 1e-6 / 1e-9 crossed with fast-but-not-one-step converging classes (identity plus a small low-rank term, near identity, clustered eigenvalues) at tolerances 1e-10 / 1e-12"),
  "C15-7": ("caught", ""),
  "C16-7": ("missed at first", "right-hand sides with exact-zero structure (zero first / last column, zero leading / trailing rows, single entry, unit vectors) and column independence of the block solve"),
+ "C04-8": ("caught", ""),
+ "C15-8": ("caught", ""),
+ "C16-8": ("caught", ""),
  "C01-8": ("missed at first", "every product returned during a history is kept and re-checked after the later calls (a result must not be a view of an internal buffer); also for every battery entry in C14"),
  "C02-8": ("caught", ""),
  "C03-8": ("missed at first (a fresh solver object per call)", "one solver object used for an unrelated problem and then twice for the judged one: iterate and histories equal a fresh solver's"),
